@@ -349,3 +349,6 @@ func (q *QSpec) CorrectableStreamEmptyQF(in *dev.Request, r map[uint32]*emptypb.
 func (q *QSpec) CorrectableStreamEmpty2QF(in *emptypb.Empty, r map[uint32]*dev.Response) (*dev.Response, int, bool) {
 	return &dev.Response{Result: int64(len(r))}, len(r), len(r) >= 1
 }
+
+// NewSpec returns a quorum specification bound to w (for checks that need one without a full world).
+func NewSpec(w *W) *QSpec { return &QSpec{w: w} }
